@@ -33,7 +33,7 @@ func contains(ids []int, x int) bool {
 // drain waits until the logger has processed everything sent so far: the entry
 // with id lastID (the most recently sent) must show up in Filter(nil, 0).
 func drain(l *go9p.Logger, lastID int) bool {
-	deadline := time.Now().Add(10 * time.Second)
+	deadline := time.Now().Add(2 * time.Second)
 	for time.Now().Before(deadline) {
 		if contains(fltIds(l.Filter(nil, 0)), lastID) {
 			return true
@@ -62,7 +62,7 @@ func modeLog(tier string, args []string) {
 		return owners[ow]
 	}
 	nextID := 1
-	for c := 0; c < nseq; c++ {
+	for c := 0; c < nseq && stats["log.drain_timeout"] < 5; c++ {
 		capn := 1 + rng.Intn(64)
 		if c%7 == 0 {
 			capn = 1 + rng.Intn(3)
@@ -124,7 +124,7 @@ func modeLog(tier string, args []string) {
 			stat("log.seq_cases_wrapped", 1)
 		}
 	}
-	for c := 0; c < nconc; c++ {
+	for c := 0; c < nconc && stats["log.drain_timeout"] < 5; c++ {
 		capn := 1 + rng.Intn(64)
 		nprod := 2 + rng.Intn(3)
 		l := go9p.NewLogger(capn)
